@@ -71,12 +71,24 @@ func generate(w *mon.W) {
 		if w.Stopped() {
 			break
 		}
-		s := "a" + string(r) + "1"
+		enc := string(r)
 		if r >= 0xD800 && r <= 0xDFFF {
 			// surrogates cannot be encoded: use the raw 3-byte form
-			s = "a" + string([]byte{0xED, byte(0xA0 | (r>>6)&0x1F), byte(0x80 | r&0x3F)}) + "1"
+			enc = string([]byte{0xED, byte(0xA0 | (r>>6)&0x1F), byte(0x80 | r&0x3F)})
 		}
+		s := "a" + enc + "1"
 		w.Do(s, func(r *mon.R) { Check(s, r) })
+		// the same code point in every other lexical context: after a digit, a
+		// radix prefix, a decimal point, an exponent marker; inside a string, a
+		// quoted name and a comment; after a backslash in a string. Quick runs
+		// take the first planes densely and the rest sparsely.
+		if w.Quick() && r >= 0x3000 && r%97 != 0 && !(r >= 0xFF00 && r <= 0xFFFF) && !(r >= 0x1F300 && r <= 0x1F3FF) {
+			continue
+		}
+		for _, ctx := range [][2]string{{"1", " a"}, {"0x1", " "}, {"1.", "+2"}, {"1e", "2"}, {"'x", "y' b"}, {"`x", "y` b"}, {"// c", "d\nb"}, {"'x\\", "y' b"}, {"\"\\", "\""}, {"", ""}} {
+			s := ctx[0] + enc + ctx[1]
+			w.Do(s, func(r *mon.R) { Check(s, r) })
+		}
 	}
 	// long runs: every lexeme (tokens of every kind, unrecognisable pieces,
 	// white space, comments) repeated around the counts a limit, a buffer or a
